@@ -1,4 +1,4 @@
 import json,sys
 e=json.load(open('/verif/evidence/%s.json'%sys.argv[1]))
-for h in e['coverage']['harnesses']: print(h['harness'],'paths',h['paths'],'pruned',h['infeasible_pruned'],'q',h['queries'],'s',h['solver_s'],'exh',h['exhaustive'],'val',h['witness_validated'],'mm',h['witness_mismatch'])
+for h in e['coverage']['harnesses']: print(h.get('harness', h.get('harness_group')),'paths',h['paths'],'pruned',h['infeasible_pruned'],'q',h['queries'],'s',h['solver_s'],'exh',h['exhaustive'],'val',h['witness_validated'],'mm',h['witness_mismatch'])
 print('wall',e['wall_s'])
